@@ -363,6 +363,10 @@ class Twins:
         except OSError:
             cfg = "<missing>"
         o["git_config"] = self.norm(x, cfg)
+        # the remote the twin pushes to (refs outside git-ai's namespaces), and the twin's directory listing
+        rr = s["remote"].plain_git("for-each-ref", "--format=%(refname) %(objectname)", env=NOHOOKS)[1]
+        o["remote_refs"] = [l for l in rr.split("\n") if l and not l.startswith("refs/notes/ai")]
+        o["twin_dir"] = sorted(os.listdir(s["tw"]))
         try:
             o["packed_refs"] = [l for l in open(os.path.join(gd, "packed-refs")).read().split("\n") if "refs/notes/ai" not in l]
         except OSError:
@@ -372,7 +376,7 @@ class Twins:
     COMPARE = (("head", "head-differs"), ("refs", "refs-differ"), ("index", "index-differs"), ("status", "status-porcelain-differs"),
                ("stash", "stash-differs"), ("worktree", "worktree-differs"), ("in_progress", "in-progress-differs"),
                ("hooklog", "user-hook-log-differs"), ("gitdir_names", "gitdir-files-differ"), ("git_config", "git-config-differs"),
-               ("packed_refs", "refs-differ"))
+               ("packed_refs", "refs-differ"), ("remote_refs", "remote-refs-differ"), ("twin_dir", "files-outside-repository-differ"))
 
     @staticmethod
     def hook_delta_without_ai(delta):
@@ -415,6 +419,9 @@ class Twins:
                 out.append((sig, {"component": key, "proxy": C.trunc(a[key], 1500), "plain": C.trunc(b[key], 1500)}))
         if open(self.env.env["GIT_CONFIG_GLOBAL"], "rb").read() != self.gitconfig0:
             out.append(("global-gitconfig-changed", {}))
+        extra = sorted(set(os.listdir(self.env.home)) - {".gitconfig", ".git-ai"})
+        if extra:
+            out.append(("home-extra-file", {"entries": extra}))
         return out
 
     def traces(self):
